@@ -2051,6 +2051,12 @@ def pi_const():
 def trig(name, a):
     a = _generic(a)
     c = CTX()
+    if getattr(c, 'replay', False) and is_conc(a):
+        import math
+        try:
+            return Fraction(getattr(math, {'arcsin': 'asin', 'arccos': 'acos', 'arctan': 'atan'}.get(name, name))(float(Fraction(sym._c(a)))))
+        except ValueError:
+            pass
     p = pi_const()
     if is_conc(a):
         a = Fraction(sym._c(a))
